@@ -1493,6 +1493,9 @@ impl DnsOutPacket {
 
         if self.size() > MAX_MSG_ABSOLUTE {
             self.data.truncate(start_size);
+            // Forget the names written by this record: their offsets now point
+            // into the removed bytes and must not be used for compression.
+            self.names.retain(|_, offset| (*offset as usize) < start_size);
             self.state = PacketState::Finished;
             return false;
         }
